@@ -336,6 +336,9 @@ theorem upper_release_cannot_fail (w : World) (op : Op) (h : Inv w) (hp : Presen
     (stepR w op).1 = .ok ∧ gone w (stepR w op).2 op ∧ Inv (stepR w op).2 :=
   ⟨(stepR_release_ok w op h hp).1, (stepR_release_ok w op h hp).2, stepR_inv w op h⟩
 
+example : Present (stepR wGrant (.connect [.success] (some 5) 7)).2 (.connectCancel 0) :=
+  ⟨⟨⟨0, some 7, true, false⟩, by decide, rfl⟩, by decide⟩
+
 /-- a connect with a timeout is started while memory is granted, then every request is refused: the cancel goes
 through (timer, registration, cookie) -/
 example : let w1 := (stepR wGrant (.connect [.success] (some 5) 7)).2
